@@ -34,6 +34,8 @@ pub enum ForgeOp {
     SigOwnUnderOther { n: u32 },
     TruncateResults { n: u32 },
     CanonRewrite { n: u32 },
+    /// the sender rewrites one of its own results and re-signs (equivocation, C15)
+    OwnRewrite { n: u32 },
     // ---- wholesale re-attribution + structural mutation (C01) ----
     Reattribute,
     Struct { path_sel: u32, kind: u8, val: u64 },
@@ -62,6 +64,7 @@ impl ForgeOp {
             ForgeOp::SigOwnUnderOther { .. } => "sig_own_under_other",
             ForgeOp::TruncateResults { .. } => "truncate_results",
             ForgeOp::CanonRewrite { .. } => "canon_rewrite",
+            ForgeOp::OwnRewrite { .. } => "own_rewrite",
             ForgeOp::Reattribute => "reattribute",
             ForgeOp::Struct { .. } => "struct",
         }
